@@ -15,7 +15,7 @@ RULE = (
     "labels of the certain language get exactly their category and class, labels underivable under any reading get 'other', the ambiguous rest "
     "must give exactly one interaction; (b) every sequence of up to K lines from a 26-line alphabet (valid unit-id pairs incl. negative numbers, "
     "insertion codes, symmetry suffix, every label category, near-misses) through parse_fr3d_output; (c) every DSSR document with <=2 pairs and "
-    "<=1 stack of <=4 members over resolvable/prefixed/unresolvable/null names x 18 valid + 7 invalid LW values x plain/models wrappers. "
+    "<=1 stack of <=4 members over resolvable/prefixed/unresolvable/null names x 18 valid + 7 invalid LW values x plain/models wrappers; (d) adapter.main in-process on a 14-nucleotide duplex for every sequence of up to 2/3 lines of a 12-line alphabet and 6 DSSR documents: never raises, CSV lists exactly the denoted interactions. "
     "non-trivial = label in the certain language / listing with at least one importable line / document with at least one resolvable pair or "
     "stack; distinct = distinct input."
 )
@@ -118,8 +118,36 @@ def dssr_docs(tier):
     yield dict(dssr=dict(pairs=[], stacks=[None]), wrap="plain")
 
 
+CU1, CU2, CU3, CU4 = "1EHZ|1|A|G|1", "1EHZ|1|B|C|72", "1EHZ|1|A|C|2", "1EHZ|1|B|G|71"
+CLI_LINES = [
+    CU1 + "\tcWW\t" + CU2,
+    CU3 + "\tcWW\t" + CU4,
+    CU4 + "\tncWW\t" + CU3,
+    CU1 + "\ttHS\t" + CU4,
+    CU1 + "\ts35\t" + CU3,
+    CU2 + "\t4BPh\t" + CU1,
+    CU3 + "\t1BR\t" + CU2,
+    CU1 + "\tperp\t" + CU4,
+    CU1 + "\tcWW\t1EHZ|1|B|C|999",
+    CU1 + "\tcWW",
+    "# comment",
+    "1EHZ|1|A|G|x\tcWW\t" + CU2,
+]
+
+
+def cli_cases(tier):
+    K = 2 if tier == "quick" else 3
+    for k in range(0, K + 1):
+        for combo in itertools.product(range(len(CLI_LINES)), repeat=k):
+            for tool in ("fr3d",):
+                yield dict(cli=list(combo), tool=tool)
+    for wrap in ("plain", "models-first"):
+        for lw in ("cWW", "__doc__", None):
+            yield dict(cli_dssr=dict(pairs=[["A.G1", "B.C72", lw], ["1:A.C2", "B.G71", "cWW"]], stacks=[["A.G1", "A.C2", "A.G99"]]), wrap=wrap)
+
+
 def families(tier):
-    return [("labels", lambda: label_prefixes(tier), 1), ("listings", lambda: listings(tier), 1), ("dssr", lambda: dssr_docs(tier), 1)]
+    return [("labels", lambda: label_prefixes(tier), 1), ("listings", lambda: listings(tier), 1), ("dssr", lambda: dssr_docs(tier), 1), ("adapter-cli", lambda: cli_cases(tier), 1)]
 
 
 def classify_result(res):
@@ -335,7 +363,89 @@ def run_dssr(case):
     return dict(nontrivial=bool(want_pairs or want_stacks), outcome="dssr pairs=%d stacks=%d" % (len(got_pairs), min(len(got_stacks), 3)), violations=out)
 
 
+_cli = {}
+
+
+def run_cli_case(case):
+    """adapter.main in-process on a 14-nucleotide duplex: never raises; CSV lists exactly the imported interactions."""
+    import contextlib
+    import csv
+    import io
+    import sys
+
+    from rnapolis import adapter
+
+    from mc import enum3d, enumio
+
+    sd = scratch_dir()
+    if "pdb" not in _cli:
+        _cli["pdb"] = os.path.join(sd, "duplex.pdb")
+        with open(_cli["pdb"], "w") as f:
+            f.write(enumio.emit_pdb(enum3d.duplex_table()))
+    ext = os.path.join(sd, "external.txt")
+    want = {"base pair": 0, "stacking": 0, "base-phosphate interaction": 0, "base-ribose interaction": 0, "other interaction": 0}
+    fuzzy = False
+    if "cli" in case:
+        lines = [CLI_LINES[k] for k in case["cli"]]
+        with open(ext, "w") as f:
+            f.write("\n".join(lines) + "\n")
+        for line in lines:
+            sline = line.strip()
+            if not sline or sline.startswith("#"):
+                continue
+            parts = sline.split("\t")
+            if len(parts) < 3 or ra.parse_unit(parts[0]) in (None, "unclear") or ra.parse_unit(parts[2]) in (None, "unclear"):
+                continue
+            e = ra.expected(parts[1])
+            cat = {"base-pair": "base pair", "stacking": "stacking", "base-phosphate": "base-phosphate interaction", "base-ribose": "base-ribose interaction"}.get(e[1] if e[0] == "exact" else None, "other interaction")
+            want[cat] += 1
+        tool = "fr3d"
+    else:
+        d = case["cli_dssr"]
+        params = dict(pairs=[dict((k, v) for k, v in (("nt1", p[0]), ("nt2", p[1]), ("LW", p[2]))) for p in d["pairs"]], stacks=[{"nts_long": ",".join(m)} for m in d["stacks"]])
+        doc = params if case["wrap"] == "plain" else {"models": [{"model": 1, "parameters": params}]}
+        with open(ext, "w") as f:
+            json.dump(doc, f)
+        want["base pair"] = sum(1 for p in d["pairs"] if p[2] in ra.LW18)
+        want["stacking"] = 1
+        tool = "dssr"
+    pcsv, pjson = os.path.join(sd, "a.csv"), os.path.join(sd, "a.json")
+    for pth in (pcsv, pjson):
+        if os.path.exists(pth):
+            os.remove(pth)
+    old = sys.argv
+    sys.argv = ["adapter", _cli["pdb"], "--external", ext, "--tool", tool, "-c", pcsv, "-j", pjson, "-a"]
+    buf = io.StringIO()
+    try:
+        with contextlib.redirect_stdout(buf), contextlib.redirect_stderr(io.StringIO()):
+            r = observe(adapter.main)
+    finally:
+        sys.argv = old
+    out = []
+    if r[0] == "exc":
+        out.append(viol("adapter-cli:" + r[1], "adapter.main raised %s (external file: %r)" % (r[2], open(ext).read()[:300])))
+    else:
+        rows = list(csv.reader(open(pcsv)))[1:] if os.path.exists(pcsv) else None
+        if rows is None:
+            out.append(viol("adapter-cli:no-csv", "adapter.main wrote no CSV"))
+        else:
+            got = {k: 0 for k in want}
+            for row in rows:
+                got[row[2]] = got.get(row[2], 0) + 1
+            if got != want:
+                out.append(viol("adapter-cli:csv-differs", "CSV of adapter.main lists %s, the external file denotes %s" % (got, want), got, want))
+        if not os.path.exists(pjson):
+            out.append(viol("adapter-cli:no-json", "adapter.main wrote no JSON"))
+        else:
+            json.load(open(pjson))
+        if ">strand_A" not in buf.getvalue():
+            out.append(viol("adapter-cli:no-dot-bracket", "adapter.main printed no dot-bracket", buf.getvalue()[:200], None))
+    return dict(nontrivial=sum(want.values()) > 0, outcome="cli imported=%d" % min(sum(want.values()), 3), violations=out)
+
+
 def run_case(case):
+    if "cli" in case or "cli_dssr" in case:
+        return run_cli_case(case)
     if "labels" in case:
         return run_labels(case)
     if "listing" in case:
